@@ -174,6 +174,7 @@ def run(ctx):
     # ---------------- R04.8 a match of a generic variable is always recorded
     r8 = ctx.rule('R04.8', 'matching a generic parameter type always records a binding for it (also against a generic of the same name)')
     generic_match_recorded(ctx, r8)
+    compiled_expressions_typed(ctx)
 
     # ---------------- R04.2 zips
     r2 = ctx.rule('R04.2', 'every zip of two runtime-length lists is preceded by a length test on the same lists')
@@ -511,6 +512,11 @@ def declared_type_table(ctx, r1):
                         nm = strip_generics(callee_name(node) or '')
                         if re.search(r'CompilationScope::(into_static_ud|add_variable|add_static_func|add_func)$', nm):
                             return 'accept'
+                    # a helper that answers for the declaration: handing the compiled expression back (Ok) accepts it
+                    if kind == 'term' and node['k'] == 'return':
+                        v = R.get(env, {'l': 0, 'p': []})
+                        if isinstance(v, tuple) and v and v[0] == 'ok':
+                            return 'accept'
                     return None
                 rs = _returns_events(absint, mir, b, tm, val, oracle, event)
                 outcomes[scen] = rs
@@ -522,7 +528,7 @@ def declared_type_table(ctx, r1):
                 r1.fail('feed/declared-type-%d' % n, mirq.site(b, bb), 'a value checked against a declared type: with %s the declaration is %s (expected %s): a generic left to be bound by the value is not rejected, or a fitting value is'
                         % (bad[0], '/'.join(sorted(outcomes[bad[0]])) or 'neither accepted nor rejected', '/'.join(want[bad[0]])))
     if n < 2:
-        r1.fail('anchor/declared-sites', 'src/parser.rs', 'expected the two declared-type checks (let, function output)')
+        r1.fail('anchor/declared-sites', 'src/parser.rs', 'expected the declared-type checks (let, function output, parameter default)')
     r1.need(2)
 
 
@@ -603,3 +609,48 @@ def generic_match_recorded(ctx, r8):
             key = {'a generic of the same name': 'same-name-generic-unrecorded'}.get(label, label.replace(' ', '-'))
             r8.fail('bind_in_assignment/%s' % key, mirq.site(b, 0), 'a parameter type that is a generic variable, matched against %s, gives %s instead of a recorded binding: a second, conflicting match of the same variable (f<T>(a: Sequence<T>, b: T) called as f(x: Sequence<T>, 3) inside g<T>) is then accepted' % (label, sorted(kinds)))
     r8.need(3)
+
+
+def compiled_expressions_typed(ctx):
+    """R04.9: every expression the parser compiles on behalf of a declaration (the value of a let, the body of a function or lambda,
+    the default of a parameter) has its type taken in the body that compiled it -- `type_of` receives the compiled expression.  A
+    compiled expression that leaves its body without a type_of can never have been compared with a declared type."""
+    from .lib import mirq
+    from .lib.facts import strip_generics, callee_name, op_place
+    mir = ctx.mir
+    r9 = ctx.rule('R04.9', 'every expression compiled by the parser has its type taken where it is compiled')
+    for b in mir.bodies:
+        if b.file != 'src/parser.rs':
+            continue
+        for bb, t in b.calls():
+            if not strip_generics(callee_name(t) or '').endswith('CompilationScope::compile') or t['dest']['p']:
+                continue
+            cons = mirq.consumers(mir, b, t['dest']['l'])
+            # through `.map_err(..)?` as well
+            seen, todo = set(), [t['dest']['l']]
+            names = set(cons)
+            while todo:
+                l = todo.pop()
+                if l in seen:
+                    continue
+                seen.add(l)
+                for cbb, ct in b.calls():
+                    if any(op_place(a) is not None and op_place(a)['l'] == l for a in ct['args']):
+                        nm = strip_generics(callee_name(ct) or '')
+                        names.add(nm)
+                        if nm.endswith(('::map_err', '::branch', '::from_residual', '::unwrap', '::expect')) and not ct['dest']['p']:
+                            todo.append(ct['dest']['l'])
+                            names |= mirq.consumers(mir, b, ct['dest']['l'])
+                for i, j, s in b.stmts():
+                    if s['k'] == 'assign' and not s['place']['p']:
+                        rv = s['rv']
+                        srcs = [op_place(rv[k]) for k in ('op', 'a', 'b') if isinstance(rv.get(k), dict)] + ([rv['place']] if 'place' in rv else [])
+                        if any(p is not None and p['l'] == l for p in srcs):
+                            todo.append(s['place']['l'])
+            typed = any(n.endswith('::type_of') for n in names)
+            fn = strip_generics(mir.enclosing_fn(b)) if b.kind == 'closure' else b.nid
+            fn = fn.split('::')[-1]
+            r9.inst({'fn': fn, 'compile_at': mirq.site(b, bb), 'type_taken_in_the_same_body': typed}, ok=typed, kind=(b.nid, bb))
+            if not typed:
+                r9.fail('%s/compiled-expression-untyped' % fn, mirq.site(b, bb), 'the compiled expression leaves this body without type_of: it is never compared with a declared type (a parameter default of another type than its parameter is accepted: fn f(x: int ?= "a") -> int { x + 1 } compiles and f() crashes the interpreter)')
+    r9.need(3)
